@@ -285,7 +285,9 @@ BdatFinalErr == R(554, <<5, 0, 0>>)
 \*   "mid1"/"mid4"  read 1 / 4 octets, then return an error
 \* st.bk is the number of octets a failing backend will still read.
 MidPlans == {"early", "mid1", "mid4"}
-KOf(p) == CASE p = "early" -> 0 [] p = "mid1" -> 1 [] p = "mid4" -> 4 [] OTHER -> 0
+\* accepting counterparts: return nil at once / after 1 / after 4 octets
+AccMidPlans == {"eacc", "eacc1", "eacc4"}
+KOf(p) == CASE p = "early" -> 0 [] p \in {"mid1", "eacc1"} -> 1 [] p \in {"mid4", "eacc4"} -> 4 [] OTHER -> 0
 \* "eacc": the backend returns nil at once without reading anything - it has
 \* accepted the message as far as it is concerned; the rest of the message is
 \* skipped and the final reply is its verdict (as with DATA)
@@ -310,14 +312,15 @@ Bdat(v, n, lastc, p) ==
      ELSE IF cfg.maxBytes > 0 /\ st.bytes + n > cfg.maxBytes THEN
           /\ st' = Cleared(st)
           /\ Emit(cmd, <<R(552, <<5, 3, 4>>)>>, ResetCbs(st))
-     ELSE IF st.bdat = "deadok" \/ (first /\ p = "eacc") THEN
-          \* the backend has returned without an error (now, or earlier): what
-          \* still arrives is skipped; LAST gets the backend's verdict
-          LET cbs0 == IF first THEN begin \o endNone ELSE <<>> IN
+     ELSE IF st.bdat = "deadok" \/ (st.bdat \in {"none", "open"} /\ plan \in AccMidPlans /\ n >= K) THEN
+          \* the backend has returned without an error (inside or right after
+          \* this chunk, or earlier): what still arrives is skipped; LAST gets
+          \* the backend's verdict
+          LET cbs0 == IF st.bdat # "deadok" THEN begin \o endNone ELSE <<>> IN
           IF lastc
           THEN /\ st' = Cleared(st)
                /\ Emit(cmd, Finals(R(250, <<2, 0, 0>>)), cbs0 \o <<CB("Reset", st.sess)>>)
-          ELSE /\ st' = [st EXCEPT !.bdat = "deadok", !.bplan = "eacc", !.bk = 0,
+          ELSE /\ st' = [st EXCEPT !.bdat = "deadok", !.bplan = plan, !.bk = 0,
                                    !.bytes = IF cfg.maxBytes > 0 THEN @ + n ELSE 0]
                /\ Emit(cmd, <<R(250, <<2, 0, 0>>)>>, cbs0)
      ELSE IF dead THEN
@@ -350,17 +353,17 @@ Bdat(v, n, lastc, p) ==
                   begin \o <<CB(dn \o ".end:eof", st.sess), CB("Logout", st.sess)>>)
      ELSE IF ~lastc THEN
           /\ st' = [st EXCEPT !.bdat = "open", !.bplan = plan,
-                              !.bk = IF plan \in MidPlans THEN K - n ELSE 0,
+                              !.bk = IF plan \in MidPlans \cup AccMidPlans THEN K - n ELSE 0,
                               !.bytes = IF cfg.maxBytes > 0 THEN @ + n ELSE 0]
           /\ Emit(cmd, <<R(250, <<2, 0, 0>>)>>, begin)
      ELSE \* LAST: the backend sees end-of-file (a failing backend before it
           \* has read its fill) and returns its verdict
           /\ st' = Cleared(st)
-          /\ Emit(cmd, Finals(IF plan = "acc" THEN R(250, <<2, 0, 0>>) ELSE BdatFinalErr),
+          /\ Emit(cmd, Finals(IF plan \in {"acc"} \cup AccMidPlans THEN R(250, <<2, 0, 0>>) ELSE BdatFinalErr),
                   begin \o <<CB(dn \o ".end:eof", st.sess), CB("Reset", st.sess)>>)
 
 BdatPlans == {"acc", "rej", "early"} \cup (IF "panic" \in Alphabet THEN {"panic"} ELSE {})
-                \cup (IF "mid" \in Alphabet THEN {"mid1", "mid4", "eacc"} ELSE {})
+                \cup (IF "mid" \in Alphabet THEN {"mid1", "mid4", "eacc", "eacc1", "eacc4"} ELSE {})
 
 \* all BDAT steps with declared size n
 BdatSized(n) ==
@@ -481,12 +484,19 @@ BdatCut(n, lastc, p, some) ==
   IN
   /\ InCmdMode /\ "cut" \in Alphabet
   /\ n \in ChunkSizes /\ n > 0
-  /\ ~(st.bdat = "open" /\ st.bplan \in MidPlans) /\ st.bdat # "deadok"
+  /\ ~(st.bdat = "open" /\ st.bplan \in MidPlans \cup AccMidPlans)
+  /\ p \notin {"eacc1", "eacc4"}
   /\ st.from /\ st.nrcpt > 0
   /\ ~(cfg.maxBytes > 0 /\ st.bytes + n > cfg.maxBytes)
   /\ (first <=> p # "")
   /\ st' = ClosedSt(st)
-  /\ IF dead /\ some
+  /\ IF st.bdat = "deadok" \/ (first /\ p = "eacc")
+     THEN \* the backend has accepted what it wanted of the message and returned:
+          \* the chunk is skipped, but it never arrives in full - no reply, and
+          \* above all no positive one; the transfer is aborted
+          Emit(cmd, <<>>, (IF first THEN begin \o <<CB(dn \o ".end:none", st.sess)>> ELSE <<>>)
+                            \o <<CB("Reset", st.sess), CB("Logout", st.sess)>>)
+     ELSE IF dead /\ some
      THEN \* the backend had already failed: the first octet of the chunk meets
           \* its error, which is reported; nothing is presented as complete
           Emit(cmd, IF lastc THEN Finals(BdatFinalErr) ELSE <<BdatFinalErr>>,
@@ -631,7 +641,7 @@ Next ==
   \/ Quit \/ PeerClose \/ PeerAbort \/ LongLine \/ IdleTimeout \/ AuthIdle \/ PanicMail \/ PanicRset \/ (\E rd \in {"all", "none"} : DataPanic(rd)) \/ AfterClose
   \/ \E over \in BOOLEAN : DataCut(over)
   \/ DataStall \/ (\E l \in BOOLEAN : BdatStall(l)) \/ BdatStallRefused
-  \/ \E n \in ChunkSizes, l \in BOOLEAN, p \in {"", "acc", "rej", "early", "panic"}, some \in BOOLEAN : BdatCut(n, l, p, some)
+  \/ \E n \in ChunkSizes, l \in BOOLEAN, p \in {"", "acc", "rej", "early", "panic"} \cup (IF "mid" \in Alphabet THEN {"eacc"} ELSE {}), some \in BOOLEAN : BdatCut(n, l, p, some)
   \/ \E ir \in {"none", "empty", "bytes"}, nchal \in 0..2, fin \in {"ok", "fail"} : AuthStart(ir, nchal, fin)
   \/ AuthNoArg
   \/ \E v \in {"badir", "unkmech"} : AuthBad(v)
